@@ -2,7 +2,7 @@ package mcp
 
 // C13: keep-alive closes dead sessions after the configured misses, never live ones.
 // Every pattern of ping outcomes (answered / swallowed -> timeout / error / method-not-found /
-// connection break) up to threshold+2 pings, for thresholds 0..3, two intervals, client and
+// connection break / the write of the ping itself stalls until the ping deadline) up to threshold+2 pings, for thresholds 0..3, two intervals, client and
 // server sessions, against a scripted raw-wire peer under virtual time.
 
 import (
@@ -18,9 +18,42 @@ import (
 	"time"
 
 	"github.com/modelcontextprotocol/go-sdk/internal/verifx"
+	"github.com/modelcontextprotocol/go-sdk/jsonrpc"
 )
 
-const c13Symbols = "AETMB" // Answer, Error, Timeout (swallowed), Method-not-found, Break
+const c13Symbols = "AETMBW" // Answer, Error, Timeout (swallowed), Method-not-found, Break, Write stalls until the ping deadline
+
+// c13Transport wraps the session's transport: it sees every keep-alive ping on its way out,
+// notes the time, decides the ping's fate from the pattern and, for 'W', lets the write itself
+// run into the caller's deadline (as an HTTP POST hitting its request deadline would) without
+// writing anything; the connection underneath stays healthy.
+type c13Transport struct {
+	Transport
+	onPing func() byte
+}
+
+func (t *c13Transport) Connect(ctx context.Context) (Connection, error) {
+	c, err := t.Transport.Connect(ctx)
+	if err != nil {
+		return nil, err
+	}
+	return &c13Conn{Connection: c, t: t}, nil
+}
+
+type c13Conn struct {
+	Connection
+	t *c13Transport
+}
+
+func (c *c13Conn) Write(ctx context.Context, msg jsonrpc.Message) error {
+	if req, ok := msg.(*jsonrpc.Request); ok && req.IsCall() && req.Method == "ping" {
+		if c.t.onPing() == 'W' {
+			<-ctx.Done()
+			return ctx.Err()
+		}
+	}
+	return c.Connection.Write(ctx, msg)
+}
 
 type c13Session interface {
 	Wait() error
@@ -44,9 +77,24 @@ func c13Case(side string, interval time.Duration, threshold int, pattern string)
 	base := runtime.NumGoroutine()
 	ct, st := NewInMemoryTransports()
 	peerRWC := ct.rwc // the scripted peer's end
-	var sessT Transport = st
 	t0 := time.Now()
 	horizonReached := false
+	var acts []byte // fates of the pings that were written, in order, for the peer to apply
+	k := 0
+	var sessT Transport = &c13Transport{Transport: st, onPing: func() byte {
+		act := byte('A')
+		if !horizonReached {
+			obs.pingTimes = append(obs.pingTimes, time.Since(t0))
+			if k < len(pattern) {
+				act = pattern[k]
+			}
+			k++
+		}
+		if act != 'W' {
+			acts = append(acts, act)
+		}
+		return act
+	}}
 	broke := false
 	obs.closedAt = -1
 	handshake := make(chan struct{})
@@ -58,7 +106,6 @@ func c13Case(side string, interval time.Duration, threshold int, pattern string)
 		if side == "server" {
 			write(`{"jsonrpc":"2.0","id":"init","method":"initialize","params":{"protocolVersion":"2025-06-18","capabilities":{},"clientInfo":{"name":"peer","version":"1"}}}`)
 		}
-		k := 0
 		for sc.Scan() {
 			var m struct {
 				ID     json.RawMessage `json:"id"`
@@ -75,14 +122,8 @@ func c13Case(side string, interval time.Duration, threshold int, pattern string)
 			case m.Method == "initialize":
 				write(`{"jsonrpc":"2.0","id":` + string(m.ID) + `,"result":{"protocolVersion":"2025-06-18","capabilities":{},"serverInfo":{"name":"peer","version":"1"}}}`)
 			case m.Method == "ping":
-				act := byte('A')
-				if !horizonReached {
-					obs.pingTimes = append(obs.pingTimes, time.Since(t0))
-					if k < len(pattern) {
-						act = pattern[k]
-					}
-					k++
-				}
+				act := acts[0]
+				acts = acts[1:]
 				switch act {
 				case 'A':
 					write(`{"jsonrpc":"2.0","id":` + string(m.ID) + `,"result":{}}`)
@@ -150,11 +191,11 @@ func c13Case(side string, interval time.Duration, threshold int, pattern string)
 			stopped = true
 		case 'B':
 			broken = true
-		case 'E', 'T':
+		case 'E', 'T', 'W':
 			run++
 			if run >= th {
 				expectClose = tick
-				if act == 'T' {
+				if act == 'T' || act == 'W' {
 					expectClose += interval / 2
 				}
 			}
@@ -255,7 +296,9 @@ func TestVerifC13(t *testing.T) {
 						}()
 						synctest.Test(t, func(t *testing.T) { obs, bad, sig = c13Case(side, interval, th, p) })
 					}()
-					desc := func() string { return fmt.Sprintf("side=%s interval=%v threshold=%d pattern=%q", side, interval, th, p) }
+					desc := func() string {
+						return fmt.Sprintf("side=%s interval=%v threshold=%d pattern=%q", side, interval, th, p)
+					}
 					if bad != "" {
 						cases.Violate(idx, sig, bad+" ["+desc()+"]", len(p)+1)
 						return
